@@ -152,6 +152,14 @@ def main(tier: str) -> int:
             if not C.close(r2, ref, 1e-6, 1e-6):
                 chk.fail("coefficient_determination on constant targets is not the documented value (1e-10 substitute for a zero total sum of squares)",
                          {"y_true": yt, "y_pred": yp, "got": r2, "reference": ref}, {"fn": "r2", "constant_target": True})
+            # the batch variant on the same degenerate targets: row-wise application of the scalar version
+            R2 = np.array([yp, [c] * n, [c + 1.0] * n])
+            chk.count("batch_r2_2d_constant")
+            got2 = [float(x) for x in M.coefficient_determination2d(a, R2)]
+            want2 = [float(M.coefficient_determination(a, np.array(r))) for r in R2]
+            if not all(C.close(g_, w_, 1e-9, 1e-9) for g_, w_ in zip(got2, want2)):
+                chk.fail("r2_2d is not the row-wise application of its scalar version", {"y_true": yt, "rows": R2.tolist(), "batch": got2, "rowwise": want2},
+                         {"fn": "r2_2d", "constant_target": True})
     for off in (1e3, 1e6, 1e8):
         yt = [off + v for v in (0.0, 1.0, 2.5, -1.5, 0.25, 3.0)]
         yp = [v + 0.25 for v in yt]
